@@ -2,13 +2,19 @@
 
 use std::collections::VecDeque;
 use std::mem;
+#[cfg(not(folo_verif))]
 use std::sync::Mutex;
+#[cfg(not(folo_verif))]
 use std::sync::atomic::{AtomicBool, AtomicU64, Ordering};
 
 use event_listener::Event;
 use events_once::EventLake;
 use plurality::MultiPool;
 
+#[cfg(folo_verif)]
+use crate::verif_sync::Mutex;
+#[cfg(folo_verif)]
+use crate::verif_sync::atomic::{AtomicBool, AtomicU64, Ordering};
 use crate::{ErasedTaskHandle, NEVER_POISONED};
 
 /// Everything a processor's worker threads share: the work they draw from, the storage that
